@@ -10,6 +10,13 @@
 //     S nx ny nz px py pz nthreads seed       dump + run one hydro step on the real objects with `nthreads` VIRTUAL
 //                                             threads interleaved by SplitMix64(seed) (see below)
 //     P nx ny nz px py pz t u                 dump + lock the real tasks t and u one after the other (all locks free)
+//     T nx ny nz px py pz nthreads            (only with -DC07_REAL_LOOP) dump + run the REAL worker loop: the source lines of
+//                                             do_simulation from `AtomicValue< uint_fast32_t > number_of_tasks;` to the
+//                                             `stop_parallel_timing_block();` after the `#pragma omp parallel` block are
+//                                             copied verbatim by props/c07.py into c07_loop.inc and #included below, and
+//                                             run by `nthreads` real OpenMP threads; execute_task is replaced by a recorder
+//                                             (global atomic sequence numbers, busy flags per touched subgrid).  A hang
+//                                             is detected by the caller's timeout.
 // stdout, per request (canonical text, integers in decimal):
 //     graph nx ny nz px py pz <ntasks>
 //     t <id> <kind> <subgrid> <buffer|-> <direction|-> <lock0 owner|-> <lock1 owner|-> <initial counter> <children...>
@@ -18,6 +25,7 @@
 //     lockfail <ids...>           tasks whose REAL Task::lock_dependency() fails although every lock is free
 //     (S) sched <thread:pick ...> ; events <+id/-id ...> ; conflicts <t:u:subgrid ...> ; result ok|hang|cap <steps> <unexited> <number_of_tasks>
 //     (P) pair <r1> <r2>          return values of the two real lock_dependency() calls
+//     (T) events / conflicts / result ok 0 0 <number_of_tasks>   (same meaning as for S, from the real threads)
 //     end
 //
 // The virtual-thread executor re-types the worker loop of the hydro step (the `#pragma omp parallel` block with
@@ -386,6 +394,109 @@ static void simulate(World &w, int nthreads, uint64_t seed) {
     delete queues[i];
 }
 
+#ifdef C07_REAL_LOOP
+// ---------------------------------------------------------------- the real worker loop on real threads
+struct C07Event {
+  uint64_t seq;
+  long task; // >= 0: start of task, < 0: stop of task ~task
+};
+static std::atomic< uint64_t > c07_seq;
+static std::vector< std::vector< C07Event > > c07_events;
+static std::atomic< long > *c07_busy = nullptr;
+static std::vector< std::string > c07_conflicts;
+static ThreadLock c07_conflict_lock;
+static World *c07_world = nullptr;
+
+template < typename... A > inline void c07_execute_task(const size_t itask, A &&...) {
+  const int tid = get_thread_index();
+  c07_events[tid].push_back(C07Event{c07_seq++, (long)itask});
+  Task &task = (*c07_world->tasks)[itask];
+  size_t touched[2];
+  int ntouched = 1;
+  touched[0] = task.get_subgrid();
+  if (is_pair(task.get_type()) && task.get_buffer() != task.get_subgrid())
+    touched[ntouched++] = task.get_buffer();
+  for (int k = 0; k < ntouched; ++k) {
+    const long prev = c07_busy[touched[k]].exchange((long)itask);
+    if (prev != -1) {
+      c07_conflict_lock.lock();
+      c07_conflicts.push_back(std::to_string(prev) + ":" + std::to_string(itask) + ":" + std::to_string(touched[k]));
+      c07_conflict_lock.unlock();
+    }
+  }
+  // stay "inside the subgrid" for a moment so that a conflicting task has a chance to show up
+  for (volatile int spin = 0; spin < 300 + (int)(itask % 7) * 100; ++spin) {
+  }
+  for (int k = 0; k < ntouched; ++k) {
+    long mine = (long)itask;
+    c07_busy[touched[k]].compare_exchange_strong(mine, -1);
+  }
+  c07_events[tid].push_back(C07Event{c07_seq++, ~(long)itask});
+}
+
+#undef start_parallel_timing_block
+#undef stop_parallel_timing_block
+#define start_parallel_timing_block()
+#define stop_parallel_timing_block()
+
+static void c07_watchdog(int) {
+  // the real loop did not leave the parallel region in time
+  static const char msg[] = "result watchdog 0 0 0\nend\n";
+  if (write(1, msg, sizeof(msg) - 1)) {
+  }
+  _exit(3);
+}
+
+static void real_loop(World &w, int nthreads) {
+  c07_world = &w;
+  c07_seq = 0;
+  c07_events.assign(nthreads, std::vector< C07Event >());
+  c07_conflicts.clear();
+  delete[] c07_busy;
+  c07_busy = new std::atomic< long >[w.nsub];
+  for (size_t s = 0; s < w.nsub; ++s) {
+    c07_busy[s] = -1;
+    w.creator->_subgrids[s]->set_owning_thread(s % nthreads);
+  }
+  omp_set_dynamic(0);
+  omp_set_num_threads(nthreads);
+  // the names the copied source lines refer to
+  Creator *grid_creator = w.creator;
+  ThreadSafeVector< Task > *tasks = w.tasks;
+  const int_fast32_t num_thread = nthreads;
+  std::vector< TaskQueue * > queues(nthreads);
+  for (int i = 0; i < nthreads; ++i)
+    queues[i] = new TaskQueue(w.ntask + 8, "q");
+  std::vector< uint_fast64_t > active_time(nthreads, 0);
+  const double actual_timestep = 0.;
+  const int hydro = 0, hydro_boundary_manager = 0;
+  (void)num_thread;
+  (void)actual_timestep;
+  (void)hydro;
+  (void)hydro_boundary_manager;
+#define execute_task c07_execute_task
+#include "c07_loop.inc"
+#undef execute_task
+  std::vector< C07Event > all;
+  for (int i = 0; i < nthreads; ++i)
+    all.insert(all.end(), c07_events[i].begin(), c07_events[i].end());
+  std::sort(all.begin(), all.end(), [](const C07Event &a, const C07Event &b) { return a.seq < b.seq; });
+  printf("events");
+  for (const C07Event &e : all) {
+    if (e.task >= 0)
+      printf(" +%ld", e.task);
+    else
+      printf(" -%ld", ~e.task);
+  }
+  printf("\nconflicts");
+  for (const std::string &c : c07_conflicts)
+    printf(" %s", c.c_str());
+  printf("\nresult ok 0 0 %lu\n", (unsigned long)number_of_tasks.value());
+  for (int i = 0; i < nthreads; ++i)
+    delete queues[i];
+}
+#endif
+
 int main() {
   char line[512];
   while (fgets(line, sizeof line, stdin)) {
@@ -402,6 +513,16 @@ int main() {
       int nthreads = 1;
       sscanf(line + n, " %d %llu", &nthreads, &seed);
       simulate(w, nthreads, seed);
+#ifdef C07_REAL_LOOP
+    } else if (mode == 'T') {
+      int nthreads = 1;
+      sscanf(line + n, " %d", &nthreads);
+      fflush(stdout);
+      signal(SIGALRM, c07_watchdog);
+      alarm(8);
+      real_loop(w, nthreads);
+      alarm(0);
+#endif
     } else if (mode == 'P') {
       sscanf(line + n, " %ld %ld", &a, &b);
       int r1 = -1, r2 = -1;
